@@ -30,7 +30,7 @@ pub const ACCOUNTS: &[(u64, &str)] = &[
 ];
 /// address used for id 0 (not a contract, owns nothing)
 pub const NOBODY: &str = "nocontract";
-pub const LEDGER_IDS: [u64; 13] = [1, 2, 3, 100, 101, 102, 103, 104, 110, 111, 120, 121, 130];
+pub const LEDGER_IDS: [u64; 14] = [0, 1, 2, 3, 100, 101, 102, 103, 104, 110, 111, 120, 121, 130];
 pub const ALLOW_IDS: [u64; 5] = [101, 102, 103, 104, 110];
 pub const ORACLE_KEY: &str = "USD";
 
